@@ -626,6 +626,32 @@ func readOnlyCallee(callee *ssa.Function) bool {
 	return false
 }
 
+// sealedReadOnlyInterface: a method call through an interface type that is DECLARED in one of the trusted read-only
+// packages and has an unexported method, so that no type outside that package can implement it (reflect.Type, whose
+// only implementation is reflect's own): the callee is then a method of that package whatever the dynamic type, and
+// the per-package trust applies. An open interface (error, fmt.Stringer, io.Writer) stays a call to unknown code.
+func sealedReadOnlyInterface(t types.Type) bool {
+	named, ok := t.(*types.Named)
+	if !ok || named.Obj() == nil || named.Obj().Pkg() == nil {
+		return false
+	}
+	switch named.Obj().Pkg().Path() {
+	case "regexp", "reflect", "fmt", "strings", "strconv", "unicode", "unicode/utf8", "errors", "math", "time", "html", "net/url":
+	default:
+		return false
+	}
+	iface, ok := named.Underlying().(*types.Interface)
+	if !ok {
+		return false
+	}
+	for i := 0; i < iface.NumMethods(); i++ {
+		if !iface.Method(i).Exported() {
+			return true
+		}
+	}
+	return false
+}
+
 // writerByName: the members of the trusted packages that do write through their receiver.
 func writerByName(callee *ssa.Function) bool {
 	sig := callee.Signature
@@ -666,6 +692,9 @@ func globalCalls(ins ssa.Instruction) []globalCall {
 		name = "a function value"
 	}
 	if readOnlyCallee(callee) {
+		return nil
+	}
+	if com.IsInvoke() && sealedReadOnlyInterface(com.Value.Type()) {
 		return nil
 	}
 	var out []globalCall
